@@ -136,11 +136,46 @@ static void *watchdog(void *a) {
 	return NULL;
 }
 
+// ---- oracle-only scenario (mix == 9): a queue created active and then retargeted onto a serial queue T; every
+// synchronous call on it that goes through the waiter hand-off must still run while T is held, i.e. never overlap
+// an item of T (the hand-off decides this from the role bits of dq_state: _dq_state_is_inner_queue)
+static _Atomic int inside_T; static _Atomic long rt_items;
+static void rt_item(void *ctx) {
+	long us = (long)(intptr_t)ctx;
+	int in = atomic_fetch_add(&inside_T, 1);
+	if (in != 0) { atomic_fetch_add(&st_overlap, 1); FAIL("overlap: an item submitted through a queue targeting serial queue T ran while %d other item(s) of T's hierarchy were running", in); }
+	now();
+	if (us) { struct timespec ts = {0, us * 1000}; nanosleep(&ts, NULL); }
+	atomic_fetch_sub(&inside_T, 1); atomic_fetch_add(&rt_items, 1);
+}
+static int retarget_scenario(uint64_t seed, int rounds) {
+	dispatch_queue_t T = dispatch_queue_create("c05.T", NULL);
+	uint64_t r = mixh(seed) | 1;
+	for (int i = 0; i < rounds && !atomic_load(&nfail); i++) {
+		dispatch_queue_t q2 = dispatch_queue_create("c05.retargeted", NULL);
+		dispatch_set_target_queue(q2, T);
+		int n = 1 + (int)(xs(&r) % 3);
+		for (int k = 0; k < n; k++) {
+			dispatch_async_f(q2, (void *)(intptr_t)(100 + xs(&r) % 200), rt_item);
+			dispatch_async_f(T, (void *)(intptr_t)(300 + xs(&r) % 900), rt_item);
+			if (xs(&r) & 1) dispatch_sync_f(q2, (void *)(intptr_t)(xs(&r) % 50), rt_item);
+			else dispatch_barrier_sync_f(q2, (void *)(intptr_t)(xs(&r) % 50), rt_item);
+		}
+		dispatch_sync_f(q2, (void *)0, rt_item);
+		dispatch_sync_f(T, (void *)0, rt_item);
+		dispatch_release(q2);
+	}
+	printf("S items=%ld async=0 self_run=0 drainer_run=0 overlap=%ld early=0 chain=0 payload=0 final_state=0 fails=%d\n",
+			atomic_load(&rt_items), atomic_load(&st_overlap), atomic_load(&nfail));
+	return atomic_load(&nfail) ? 1 : 0;
+}
+
 int main(int argc, char **argv) {
 	uint64_t seed = argc > 1 ? strtoull(argv[1], 0, 10) : 1; ncalls = argc > 2 ? atoi(argv[2]) : 100;
 	int permille = argc > 3 ? atoi(argv[3]) : 150; nclients = argc > 4 ? atoi(argv[4]) : 6; nfeeders = argc > 5 ? atoi(argv[5]) : 1;
 	mix = argc > 6 ? atoi(argv[6]) : 0;
 	if (nclients + nfeeders > MAXT) return 2;
+	if (mix == 9) { dv_install(seed, permille); pthread_t wd0; pthread_create(&wd0, NULL, watchdog, NULL); return retarget_scenario(seed, ncalls); }
 	chain.n = 0; chain.hash = mixh(7);
 	q = dispatch_queue_create("c05.serial", NULL);
 	dispatch_lane_t dl = (dispatch_lane_t)q;
